@@ -1421,6 +1421,21 @@ func (f *FuncCFG) expand(depth int, onStack map[*types.Func]bool) {
 			}
 			for _, cb := range sub.G.Blocks {
 				if !cb.Live {
+					// a dead block can still be the anchor of a nested call (the generic continuation of
+					// a helper all of whose returns were classified): keep its region for paramArg
+					if inner := sub.regionOf[cb]; inner != nil {
+						root := inner
+						for root.parent != nil {
+							root = root.parent
+						}
+						if root != reg {
+							root.parent = reg
+						}
+						f.regionOf[cb] = inner
+					} else {
+						f.regionOf[cb] = reg
+					}
+					f.G.Blocks = append(f.G.Blocks, cb) // stays dead; kept so that outer levels see its region
 					continue
 				}
 				if len(cb.Succs) == 0 {
@@ -1944,6 +1959,8 @@ func (f *FuncCFG) valuesUnder(e ast.Expr, pt Point, assign map[string]bool, dept
 // "chan:<key>" for `for v := range ch` and `for v, ok := <-ch; ok; v, ok = <-ch`,
 // "range:<key>" for a range over a slice/map, "" otherwise.
 func (f *FuncCFG) LoopBound(l loopInfo) string {
+	// operands are rendered resolved at the loop head (helper parameters -> the caller's arguments)
+	rawKey := func(e ast.Expr) string { return f.KeyAt(e, Point{l.Head, 0}) }
 	switch st := l.Stmt.(type) {
 	case *ast.RangeStmt:
 		t := f.Info.TypeOf(st.X)
@@ -2305,6 +2322,15 @@ func (f *FuncCFG) residualFacts(cond ast.Expr, branch bool, pt Point, assign map
 	var out []fact
 	for _, ft := range f.expandBoolTemp(fact{e, branch}, pt, 3) {
 		out = append(out, ft)
+	}
+	return out
+}
+
+// regionChain names the spliced helpers a block belongs to, innermost first (development aid).
+func (f *FuncCFG) regionChain(b *cfg.Block) []string {
+	var out []string
+	for reg := f.regionOf[b]; reg != nil; reg = reg.parent {
+		out = append(out, reg.fd.Name.Name)
 	}
 	return out
 }
